@@ -64,6 +64,13 @@ Theorem C20_verify2_status : forall md5 cwd args par st c st1,
 Proof. exact cli_verify2_codes. Qed.
 Print Assumptions C20_verify2_status.
 
+Theorem C20_verify1_status : forall md5 cwd args par all st fc ok st1,
+  cli_is_verify1 args par all -> par1_verify md5 par all st = (Ok (fc, ok), st1) ->
+  fst (cli_run md5 cwd args st) =
+    (if Nat.eqb (fc_unusable fc) 0 then 0 else if Nat.leb (fc_unusable fc) (fc_pusable fc) then 1 else 2).
+Proof. exact cli_verify1_codes. Qed.
+Print Assumptions C20_verify1_status.
+
 Theorem C20_repair2_status : forall md5 cwd args par dbl st r rp st1,
   cli_is_repair2 args par dbl -> par2_repair md5 par dbl st = ((r, rp), st1) ->
   fst (cli_run md5 cwd args st) = exit_of_repair r.
